@@ -119,7 +119,7 @@ theorem compile_total {T : Tables} (hT : TablesWf T) (hC : TablesCt T) (ap : Boo
       | strConst n s => simp [elabItem] at he
       | hostId n v => simp [elabItem] at he
       | moduleId n v => simp [elabItem] at he
-      | signal n id h => simp [elabItem] at he
+      | signal n id h => simp only [elabItem] at he; split at he <;> simp at he
       | alias n t =>
         simp only [elabItem] at he
         unfold elabAlias at he
@@ -153,6 +153,8 @@ theorem compile_total {T : Tables} (hT : TablesWf T) (hC : TablesCt T) (ap : Boo
         have hdoc := hd.1
         simp only [itemDocumented, specDocumented, Bool.and_eq_true] at hdoc
         simp only [elabItem] at he
+        split at he
+        · simp at he
         split at he
         · rename_i e' hs
           simp at he; subst he
